@@ -39,7 +39,7 @@ CARDS = {'NO_RESULT': 0x6e, 'AT_MOST_ONE': 0x6f, 'ONE': 0x41, 'MANY': 0x6d, 'AT_
 def load_corpus() -> dict:
     """regression cases (run first)"""
     import os
-    out = {'id_calls': [], 'stub_nested_tuples': [], 'queries': []}
+    out = {'id_calls': [], 'stub_nested_tuples': [], 'queries': [], 'id_clash_pairs': []}
     d = os.path.join(core.VERIF, 'corpus', 'C14')
     if os.path.isdir(d):
         for fn in sorted(os.listdir(d)):
@@ -828,9 +828,61 @@ def has_colon(n: Node) -> bool:
     return False
 
 
-def l2_compile(ctx: core.Ctx, n_queries: int) -> dict:
-    """compile generated queries with the REAL server compiler through the bridge"""
+def _unit_out(unit):
+    tid = unit.out_type_id
+    return bytes(unit.out_type_data), bytes(tid.bytes if hasattr(tid, 'bytes') else tid)
+
+
+def _unit_in(unit):
+    tid = unit.in_type_id
+    return bytes(unit.in_type_data), bytes(tid.bytes if hasattr(tid, 'bytes') else tid)
+
+
+L2_OPTS = ((False, False), (True, False), (False, True))
+L2_PVS = [(1, 0), (2, 0), (3, 0)]
+
+
+def _l2_contexts(env, sch):
     import dataclasses
+    ctxs = {}
+    for pv in L2_PVS:
+        base = env.server_context(sch, protocol_version=pv)
+        for opt in L2_OPTS:
+            ctxs[pv, opt] = dataclasses.replace(base, inline_typenames=opt[0], inline_typeids=opt[1])
+    return ctxs
+
+
+def fresh_main(pin: str, pout: str):
+    """run in a FRESH process: compile the given queries on the given (pickled) schemas;
+    the parent compares the descriptors byte for byte with what it produced after a history"""
+    import pickle
+    from bridge import env
+    env.setup()
+    jobs = pickle.load(open(pin, 'rb'))
+    out = []
+    for (sch, items) in jobs:
+        ctxs = _l2_contexts(env, sch)
+        res = []
+        for (text, pv, opt, which) in items:
+            try:
+                grp = env.server_compile(ctxs[tuple(pv), tuple(opt)], text)
+                unit = grp.units[0] if hasattr(grp, 'units') else grp[0]
+                d, t = _unit_out(unit) if which == 'out' else _unit_in(unit)
+                res.append((d.hex(), t.hex(), None))
+            except Exception as e:      # noqa: BLE001
+                res.append(('', '', f'{type(e).__name__}: {e}'[:300]))
+        out.append(res)
+    json.dump(out, open(pout, 'w'))
+
+
+def l2_compile(ctx: core.Ctx, n_queries: int) -> dict:
+    """compile generated queries with the REAL server compiler through the bridge: first on
+    schema S1, then along a HISTORY of in-place ALTERs (same process, ids kept)"""
+    import os
+    import pickle
+    import subprocess
+    import sys
+    import tempfile
     rng = ctx.rng
     try:
         from bridge import env
@@ -839,10 +891,11 @@ def l2_compile(ctx: core.Ctx, n_queries: int) -> dict:
     except Exception as e:      # noqa: BLE001
         raise core.Infra(f'front-end bridge unavailable: {type(e).__name__}: {e}')
     from edb.server import defines
-    pvs = [(1, 0), (2, 0), (3, 0)]
+    pvs = L2_PVS
     if defines.MIN_PROTOCOL != (1, 0) or defines.CURRENT_PROTOCOL != (3, 0):
         raise core.Infra('protocol range changed: extend the list of protocol versions')
-    gen = L2Gen(rng)
+    spec = L2Spec()
+    gen = L2Gen(rng, spec)
     queries = []
     for i in range(n_queries):
         colon = i % 3 == 0
@@ -861,41 +914,122 @@ def l2_compile(ctx: core.Ctx, n_queries: int) -> dict:
                                                               (n1, ONE, i64, False, False),
                                                               (n2, ONE, i64, False, False)]), True))
     sys_pvs = [pvs[ctx.seed % 3]] if ctx.quick() else pvs
-    pq = [('select <int64>$x + <optional int64>$y', [('x', ONE), ('y', OPT)]),
-          ('select (<str>$a, <array<int64>>$b, <optional myint>$c)', [('a', ONE), ('b', ONE), ('c', OPT)]),
-          ('select <tuple<int64, str>>$0', [('0', ONE)])]
-    ctxs = {}
-    for pv in pvs:
-        base = env.server_context(sch, protocol_version=pv)
-        for opt in ((False, False), (True, False), (False, True)):
-            ctxs[pv, opt] = dataclasses.replace(base, inline_typenames=opt[0], inline_typeids=opt[1])
-    rec = {'out': [], 'in': [],
-           'schema_ids': {n: sch.get(n).id.bytes for n in ('default::myint', 'default::Color')}}
+    pq = [('select <int64>$x + <optional int64>$y', [('x', ONE, i64), ('y', OPT, i64)]),
+          ('select (<str>$a, <array<int64>>$b, <optional myint>$c)',
+           [('a', ONE, ('S', 'std::str')), ('b', ONE, ('A', i64)), ('c', OPT, ('S', 'default::myint'))]),
+          ('select <tuple<int64, str>>$0', [('0', ONE, ('T', [i64, ('S', 'std::str')]))])]
+    ctxs = _l2_contexts(env, sch)
+    rec = {'out': [], 'in': [], 'steps': [dict(kind='S1', ddl=[], **spec.facts(sch))], 'fresh': None}
+    fresh_jobs = []
+
+    def compile_out(text, exp, tag, pv, opt, step, items=None):
+        try:
+            grp = env.server_compile(ctxs[pv, opt], text)
+            unit = grp.units[0] if hasattr(grp, 'units') else grp[0]
+            d, t = _unit_out(unit)
+            rec['out'].append((text, exp, tag, pv, opt, d, t, None, step))
+            if items is not None:
+                items.append((text, pv, opt, 'out', len(rec['out']) - 1))
+            return True
+        except Exception as e:      # noqa: BLE001
+            rec['out'].append((text, exp, tag, pv, opt, b'', b'', f'{type(e).__name__}: {e}'[:300], step))
+            return False
+
+    def compile_in(text, exp, pv, step, items=None):
+        try:
+            grp = env.server_compile(ctxs[pv, (False, False)], text)
+            unit = grp.units[0] if hasattr(grp, 'units') else grp[0]
+            d, t = _unit_in(unit)
+            rec['in'].append((text, exp, pv, d, t, None, step))
+            if items is not None:
+                items.append((text, pv, (False, False), 'in', len(rec['in']) - 1))
+        except Exception as e:      # noqa: BLE001
+            rec['in'].append((text, exp, pv, b'', b'', f'{type(e).__name__}: {e}'[:300], step))
+
     corpus = [(q['text'], tup(q['expect']), 'corpus') for q in load_corpus()['queries']]
-    for qi, (text, exp, colon) in enumerate(corpus + systematic + queries):
-        for pv in (pvs if colon == 'corpus' else sys_pvs if qi < len(corpus) + len(systematic) else pvs):
-            opt = rng.choice([(False, False), (False, False), (True, False), (False, True)])
-            if qi < len(corpus) + len(systematic):
-                opt = (False, False)
-            try:
-                grp = env.server_compile(ctxs[pv, opt], text)
-                unit = grp.units[0] if hasattr(grp, 'units') else grp[0]
-                rec['out'].append((text, exp, colon, pv, opt, bytes(unit.out_type_data),
-                                   bytes(unit.out_type_id.bytes if hasattr(unit.out_type_id, 'bytes')
-                                         else unit.out_type_id), None))
-            except Exception as e:      # noqa: BLE001
-                rec['out'].append((text, exp, colon, pv, opt, b'', b'', f'{type(e).__name__}: {e}'[:300]))
+    probes, pparams = spec.probes()
+    for qi, (text, exp, colon) in enumerate(corpus + systematic + queries + [(t, e, 'probe') for t, e in probes]):
+        fixed = qi < len(corpus) + len(systematic)
+        for pv in (pvs if colon in ('corpus', 'probe') else sys_pvs if fixed else pvs):
+            opt = (False, False) if fixed else rng.choice([(False, False), (False, False), (True, False), (False, True)])
+            if not compile_out(text, exp, colon, pv, opt, 0):
                 break
-    for text, exp in pq:
+    for text, exp in pq + pparams:
         for pv in pvs:
+            compile_in(text, exp, pv, 0)
+    # known root causes with their witnesses (corpus): pairs of queries that must not share an id
+    for pair in load_corpus()['id_clash_pairs']:
+        for text in pair['queries']:
+            for pv in pvs:
+                compile_out(text, tup(pair['expect']), 'pair:' + pair['key'], pv, (False, False), 0)
+    # SQL row descriptors: the REAL Compiler.compile_sql_descriptors on column lists as PostgreSQL's
+    # RowDescription gives them (`select 1 as a, 'x' as b` / `select 1 as a, 2 as a`)
+    rec['sql'] = []
+    try:
+        from edb.schema import schema as s_schema, objects as s_obj
+        comp = env.new_compiler()
+        i64_, str_ = (str(s_obj.get_known_type_id(n)) for n in ('std::int64', 'std::str'))
+        for cols in ([('a', i64_), ('b', str_)], [('a', i64_), ('a', i64_)], [('a', i64_), ('b', str_), ('a', str_)]):
+            for pv in pvs:
+                res = comp.compile_sql_descriptors(sch, s_schema.EMPTY_SCHEMA, pv, [([i64_], cols)])
+                rec['sql'].append((cols, pv, bytes(res[0][1][0]), bytes(res[0][1][1]), bytes(res[0][0][0])))
+    except Exception as e:      # noqa: BLE001
+        rec['sql_error'] = f'{type(e).__name__}: {e}'[:300]
+
+    # ---- the history: in-place ALTERs that keep ids, same process
+    hist = spec.history()
+    if ctx.quick():
+        sizes, groups, k = [1, 4, 3, 3], [], 0
+        for n in sizes:
+            groups.append(hist[k:k + n])
+            k += n
+    else:
+        groups = [[h] for h in hist]
+    cur = sch
+    ddl_so_far = []
+    for gi, group in enumerate(groups):
+        kinds = []
+        for (kind, ddl_fn, mutate_spec) in group:
+            ddl = ddl_fn()
             try:
-                grp = env.server_compile(ctxs[pv, (False, False)], text)
-                unit = grp.units[0] if hasattr(grp, 'units') else grp[0]
-                tid = unit.in_type_id
-                rec['in'].append((text, exp, pv, bytes(unit.in_type_data),
-                                  bytes(tid.bytes if hasattr(tid, 'bytes') else tid), None))
+                cur = env.run_ddl(cur, ddl)
             except Exception as e:      # noqa: BLE001
-                rec['in'].append((text, exp, pv, b'', b'', f'{type(e).__name__}: {e}'[:300]))
+                raise core.Infra(f'history DDL rejected: {ddl!r}: {type(e).__name__}: {e}')
+            mutate_spec()
+            kinds.append(kind)
+            ddl_so_far.append(ddl)
+        step = len(rec['steps'])
+        rec['steps'].append(dict(kind='+'.join(kinds), ddl=list(ddl_so_far), **spec.facts(cur)))
+        ctxs = _l2_contexts(env, cur)
+        items = []
+        probes, pparams = spec.probes()
+        extra = []
+        for _ in range(1 if ctx.quick() else 6):
+            q = gen.expr(rng.randint(1, 3), False)
+            extra.append(('select ' + q[0], q[1]))
+        for qi, (text, exp) in enumerate(probes + extra):
+            for pi, pv in enumerate(pvs):
+                if ctx.quick() and (pi + qi + gi) % 3 == 0:
+                    continue        # quick: two of the three protocol versions, rotating
+                opt = rng.choice(L2_OPTS)
+                compile_out(text, exp, 'history', pv, opt, step, items)
+        for (text, exp) in pparams:
+            for pi, pv in enumerate(pvs):
+                if ctx.quick() and (pi + gi) % 3 == 1:
+                    continue
+                compile_in(text, exp, pv, step, items)
+        if not ctx.quick() or gi == len(groups) - 1:
+            fresh_jobs.append((cur, items))
+
+    # ---- the same describes in a FRESH process on the same (pickled) schemas
+    d = tempfile.mkdtemp(prefix='c14-fresh-')
+    pin, pout = os.path.join(d, 'in.pickle'), os.path.join(d, 'out.json')
+    pickle.dump([(s_, [(t, pv, opt, w) for (t, pv, opt, w, _i) in it]) for (s_, it) in fresh_jobs],
+                open(pin, 'wb'), -1)
+    proc = subprocess.Popen([sys.executable, '-c', 'import sys; from props import c14; c14.fresh_main(*sys.argv[1:])',
+                             pin, pout], env=dict(os.environ), stdout=open(os.path.join(d, 'log.txt'), 'w'), stderr=subprocess.STDOUT)
+    rec['fresh'] = {'proc': proc, 'out': pout, 'log': os.path.join(d, 'log.txt'), 'index': [[(w, i) for (_t, _pv, _opt, w, i) in it]
+                                                         for (_s, it) in fresh_jobs]}
     return rec
 
 
@@ -1132,6 +1266,52 @@ class Run:
                                           'equal descriptor ids for different structure / bytes '
                                           '(real encoder on stub types)', det)
                         sigs_seen.setdefault((v2, fl, nf, sig), root.id)
+            # ---- history: in-place changes that keep every id (what ALTER does), then the same types again
+            if wi % 3 == 0 and not colon:
+                muts = []
+                for e in w.enums:
+                    e.x_enum = (list(reversed(e.x_enum)) if rng.random() < 0.4 else list(e.x_enum)) + ['Added']
+                    if rng.random() < 0.6:
+                        e.x_name = e.x_display = e.x_name + 'Renamed'
+                    muts.append(f'enum {e.id} -> {e.x_name} {e.x_enum}')
+                for sc in w.derived:
+                    if rng.random() < 0.6:
+                        sc.x_name = sc.x_display = sc.x_name + 'Renamed'
+                    if len(sc.x_anc) > 2 and rng.random() < 0.5:
+                        sc.x_anc = sc.x_anc[1:]
+                    muts.append(f'scalar {sc.id} -> {sc.x_name} ancestors {[a.x_name for a in sc.x_anc]}')
+                for o in w.objs:
+                    if rng.random() < 0.5:
+                        o.x_name = o.x_name + 'Renamed'
+                        muts.append(f'object type {o.id} -> {o.x_name}')
+                for ptrs in list(w.view_shapes.values()):
+                    for ptr in ptrs:
+                        if ptr.x_name in ('id', '__tid__', '__tname__'):
+                            continue
+                        if rng.random() < 0.3:
+                            ptr.x_name = ptr.x_name + 'r'
+                        if rng.random() < 0.3:
+                            ptr.x_required = not ptr.x_required
+                        if rng.random() < 0.2 and not ptr.x_link:
+                            ptr.x_many = not ptr.x_many
+                for ti, t in enumerate(roots):
+                    for fam in (PV1, PV2):
+                        pv = rng.choice(fam)
+                        v2 = pv >= (2, 0)
+                        inl = rng.random() < 0.3
+                        absf = lambda t=t, v2=v2: w.abs(t, v2)  # noqa: E731
+                        annos = None
+                        if inl and not v2:
+                            try:
+                                annos = self.anno_bytes(w, absf())
+                            except LookupError:
+                                annos = None
+                        self.schema_case(
+                            w, 'history', lambda t=t, pv=pv, inl=inl: st.describe(
+                                w.schema, t, w.view_shapes, w.view_meta, protocol_version=pv,
+                                inline_typenames=inl)[0], absf, pv, annos=annos,
+                            replay=f'seed={self.ctx.seed} world={wi} type={ti} pv={pv} inline_typenames={inl} '
+                                   f'AFTER in-place changes in the same process: {muts[:6]}')
             # describe_params / describe_sql_result / describe_input_shape / derive()
             pv = rng.choice(PV1 + PV2)
             v2 = pv >= (2, 0)
@@ -1408,15 +1588,26 @@ class Run:
         schema classes exist, so that the real compiler runs in an unpolluted process)"""
         ctx, st = self.ctx, self.st
         U = self.sx.uuidgen.UUID
-        schema_ids = {n: self.sx.s_obj.get_known_type_id(n).bytes for n in World.FUND + ['std::int16']}
-        schema_ids.update(rec['schema_ids'])
-        enum_labels = {'default::Color': ['Red', 'Green']}
+        std_ids = {n: self.sx.s_obj.get_known_type_id(n).bytes for n in World.FUND + ['std::int16']}
+        all_facts = []
+        for stp in rec['steps']:
+            f = dict(stp)
+            f['schema_ids'] = std_ids | stp['schema_ids']
+            all_facts.append(f)
         seen_ids: dict = {}
         seen_struct: dict = {}
-        for (text, exp, colon, pv, opt, data, tid, err) in rec['out']:
+        pairs: dict = {}
+        versions: dict = {}
+        for (text, exp, colon, pv, opt, data, tid, err, step) in rec['out']:
             if True:
                 v2 = pv >= (2, 0)
+                facts = all_facts[step]
                 rp = {'query': text, 'protocol': list(pv), 'inline_typenames': opt[0], 'inline_typeids': opt[1]}
+                okey = 'oracle:l2'
+                if step:
+                    rp['history'] = {'step': step, 'kind': facts['kind'], 'ddl_applied_in_this_process': facts['ddl']}
+                    okey = f'oracle:l2-history:{facts["kind"]}'
+                    self.count('L2:after-history:' + facts['kind'])
                 if err is not None:
                     self.count('L2:compile-error')
                     ctx.fail(f'oracle:l2-compile:{text}', 'generated query rejected / compiler failed',
@@ -1434,31 +1625,55 @@ class Run:
                         self.count('L2:real-parse-rejects-annotated-stream(observation)')
                         got, perr = self.real_parse(body, pv)
                 problems = []
+                dups = exp_has_dups(exp)
                 if got is None:
                     problems.append('real decoder rejects out_type_data: ' + str(perr))
                 else:
                     self.note_tree(got)
                     if got.id != tid:
                         problems.append('out_type_id is not the id of the last descriptor')
-                    problems += l2_match(got, exp, v2, schema_ids, enum_labels)
-                    if v2:
+                    if dups:
+                        # the real decoder keeps shape elements in a dict: a pointer and a link property of
+                        # the same name collapse; the description is checked through the model's
+                        # documented-format decoder instead
+                        self.count('L2:duplicate-element-names(doc-decoder-oracle)')
+
+                        def chk_dups(out, exp=exp, v2=v2, facts=facts, rp=rp, data=data, okey=okey, pv=pv, text=text):
+                            f = out.split(' ')
+                            bad = ['documented-format decoder rejects out_type_data'] if f[0] != 'ok' else \
+                                l2_match(parse_rpn(f[1]), exp, v2, facts)
+                            for pr in bad:
+                                ctx.fail(f'{okey}:{pv}:{text}', 'compiled query: ' + pr,
+                                         rp | {'out_type_data': data.hex(), 'decoded': out[:2000]})
+                        self.ask(f'DD {"2" if v2 else "1"} {data.hex()}', chk_dups)
+                    else:
+                        problems += l2_match(got, exp, v2, facts)
+                    if v2 and not dups:
                         problems += l2_reid(got, st, U, None)
-                    if v2 and walk_frames(body) != len({u.id for u in subtrees(got)}):
+                    if v2 and not dups and walk_frames(body) != len({u.id for u in subtrees(got)}):
                         problems.append('length prefixes do not frame one block per distinct descriptor')
                 for pr in problems:
-                    ctx.fail(f'oracle:l2:{pv}:{text}', 'compiled query: ' + pr,
+                    ctx.fail(f'{okey}:{pv}:{text}', 'compiled query: ' + pr,
                              rp | {'out_type_data': data.hex(), 'decoded': rpn(got) if got else None,
                                    'expected': repr(exp)})
+                # across schema versions (observation, see notes): same id, other bytes
+                ov = versions.setdefault((pv, opt, tid), (step, data))
+                if ov[0] != step and ov[1] != data:
+                    self.count('L2:cross-version-same-id-different-descriptor(observation)')
+                if isinstance(colon, str) and colon.startswith('pair:'):
+                    pairs.setdefault((colon[5:], pv), []).append((text, data, tid))
+                    colon = 'pair'
                 # equal ids => identical descriptors; different structure => different ids
-                key = (pv, opt, tid)
-                old = seen_ids.setdefault(key, (data, text, repr(exp)))
+                key = (step, pv, opt, tid)
+                old = seen_ids.setdefault(key, (data, text, repr(exp))) if colon != 'pair' else (data,)
                 if old[0] != data:
                     det = {'level': 'ACCEPTED QUERIES through the real compiler (level 2)', 'out_type_id': tid.hex(),
                            'query_1': old[1], 'out_type_data_1': old[0].hex(),
                            'query_2': text, 'out_type_data_2': data.hex()} | rp
                     ctx.fail(f'oracle:l2-id-clash:{tid.hex()}', 'two accepted queries, one out_type_id, different '
                              'descriptors', det)
-                o2 = seen_struct.setdefault((pv, opt, repr(exp)), (tid, data, text))
+                o2 = seen_struct.setdefault((step, pv, opt, repr(exp)), (tid, data, text)) if colon != 'pair' \
+                    else (tid, data)
                 if o2[0] != tid or o2[1] != data:
                     ctx.fail(f'oracle:l2-unstable-id:{text}', 'structurally equal queries got different '
                              'descriptors / ids', rp | {'other_query': o2[2]})
@@ -1469,7 +1684,7 @@ class Run:
                     if body != data:
                         # annotated stream: documented-format decoder gives the same description and the
                         # annotations map the ids of the user-defined scalars / enums to their names
-                        id2name = {v: k for k, v in rec['schema_ids'].items()}
+                        id2name = {v: k for k, v in rec['steps'][step]['schema_ids'].items()}
 
                         def chk_doc(out, want=want, rp=rp, data=data, id2name=id2name, got=got):
                             f = out.split(' ')
@@ -1488,34 +1703,124 @@ class Run:
                         self.ask(f'DD {p} {data.hex()}', chk_doc)
                         self.count('L2:doc-decoder-oracle')
                     self.ask(f'D {p} {body.hex()}',
-                             lambda out, want=want, rp=rp, body=body: None if out == 'ok ' + want else
+                             lambda out, want=want, rp=rp, body=body, dups=dups: None if (
+                                 out == 'ok ' + want or
+                                 (dups and out.startswith('ok ') and
+                                  rpn(dict_collapse(parse_rpn(out[3:]))) == want)) else
                              self.disagree('l2-decode:' + rp['query'], 'model decode of out_type_data differs from '
                                            'real parse', rp | {'model': out[:1500], 'real': want[:1500]}))
-                    if not has_dup_names(got):
+                    if not has_dup_names(got) and not dups:
                         self.ask(f'E {p} {want}',
                                  lambda out, rp=rp, body=body: None if out.split(' ')[:2] == ['ok', body.hex()] else
                                  self.disagree('l2-encode:' + rp['query'], 'model encode(decoded tree) differs from '
                                                'out_type_data', rp | {'model': out[:1500], 'real': body.hex()}))
-        for (text, exp, pv, data, in_tid, err) in rec['in']:
+        for (text, exp, pv, data, in_tid, err, step) in rec['in']:
             if True:
                 v2 = pv >= (2, 0)
+                facts = all_facts[step]
                 rp = {'query': text, 'protocol': list(pv)}
+                if step:
+                    rp['history'] = {'step': step, 'kind': facts['kind'], 'ddl_applied_in_this_process': facts['ddl']}
                 if err is not None:
                     ctx.fail(f'oracle:l2-compile:{text}', 'parameter query rejected', rp | {'error': err},
                              no_input=True)
                     continue
                 got, perr = self.real_parse(data, pv)
                 self.count('L2:params')
-                if got is None or got.kind != 'shape' or \
-                        [(e[2].decode(), e[1]) for e in got.payload[1]] != exp or got.id != in_tid:
-                    ctx.fail(f'oracle:l2-params:{pv}:{text}', 'input descriptor does not describe the parameters',
+                problems = []
+                if got is None or got.kind != 'shape' or got.id != in_tid:
+                    problems.append('input descriptor is not a shape with id in_type_id')
+                elif [(e[2].decode(), e[1]) for e in got.payload[1]] != [(n, c) for (n, c, _t) in exp]:
+                    problems.append('parameter names / cardinalities differ')
+                else:
+                    for c, (n, _c, t) in zip(got.pre, exp):
+                        problems += l2_match(c, t, v2, facts, '$' + n)
+                for pr in problems:
+                    ctx.fail(f'oracle:l2-params{"-history:" + facts["kind"] if step else ""}:{pv}:{text}',
+                             'input descriptor does not describe the parameters: ' + pr,
                              rp | {'in_type_data': data.hex(), 'decoded': rpn(got) if got else perr})
-                elif got is not None:
+                if got is not None and not problems:
                     want = rpn(got)
                     self.ask(f'E {"2" if v2 else "1"} {want}',
                              lambda out, rp=rp, data=data: None if out.split(' ')[:2] == ['ok', data.hex()] else
                              self.disagree('l2-params:' + rp['query'], 'model encode differs from in_type_data',
                                            rp | {'model': out[:1500], 'real': data.hex()}))
+        # known root causes (corpus witnesses): the two queries of a pair must not share an id
+        done = set()
+        for (key, pv), items in sorted(pairs.items()):
+            if len(items) == 2 and items[0][2] == items[1][2] and items[0][1] != items[1][1] and key not in done:
+                done.add(key)
+                ctx.fail(key, 'two accepted queries over one schema: one out_type_id, different out_type_data',
+                         {'protocol': list(pv), 'out_type_id': items[0][2].hex(),
+                          'query_1': items[0][0], 'out_type_data_1': items[0][1].hex(),
+                          'query_2': items[1][0], 'out_type_data_2': items[1][1].hex(),
+                          'per_protocol': {str(k[1]): (v[0][2] == v[1][2], v[0][1] == v[1][1])
+                                           for k, v in pairs.items() if k[0] == key and len(v) == 2}})
+            self.count('L2:corpus-pair:' + key)
+        # SQL row descriptors
+        if rec.get('sql_error'):
+            ctx.fail('oracle:sqlrow:call', 'Compiler.compile_sql_descriptors could not be called',
+                     {'error': rec['sql_error']}, no_input=True)
+        for (cols, pv, data, tid, indata) in rec.get('sql', []):
+            names = [c[0] for c in cols]
+
+            def chk_sql(out, cols=cols, names=names, pv=pv, data=data):
+                f = out.split(' ')
+                got_names = None
+                if f[0] == 'ok':
+                    t = parse_rpn(f[1])
+                    got_names = [x.decode() for x in t.payload] if t.kind == 'sqlrow' else None
+                if got_names != names:
+                    dup = len(set(names)) != len(names)
+                    ctx.fail('sqlrow-duplicate-column-names' if dup else f'oracle:sqlrow:{names}',
+                             'the SQL_ROW descriptor does not list the columns of the row'
+                             + (' (compile_sql_descriptors collects them in a dict: a repeated column name '
+                                'loses a column)' if dup else ''),
+                             {'columns (name, type id) as PostgreSQL reports them e.g. for '
+                              '`select 1 as a, 2 as a`': cols, 'protocol': list(pv),
+                              'descriptor': data.hex(), 'described_columns': got_names,
+                              'call': 'Compiler.compile_sql_descriptors(user_schema, EMPTY_SCHEMA, protocol, '
+                                      '[([int64], columns)])'})
+            self.ask(f'DD {"2" if pv >= (2, 0) else "1"} {data.hex()}', chk_sql)
+            self.count('L2:sql-row-descriptor')
+        self.fresh_compare(rec)
+
+    def fresh_compare(self, rec: dict):
+        """history independence: the descriptors produced after the in-place ALTERs must be byte-identical
+        to those a FRESH process produces for the same queries on the same (pickled) schema"""
+        import hashlib
+        fr = rec.get('fresh')
+        if not fr:
+            return
+        try:
+            fr['proc'].wait(timeout=1500)
+        except Exception as e:      # noqa: BLE001
+            fr['proc'].kill()
+            raise core.Infra(f'fresh-process describe did not finish: {e}')
+        try:
+            res = json.load(open(fr['out']))
+        except Exception as e:      # noqa: BLE001
+            raise core.Infra(f'fresh-process describe failed: {e}: ' + open(fr['log']).read()[-1500:])
+        for idx, job in zip(fr['index'], res):
+            for (which, i), (dhex, thex, err) in zip(idx, job):
+                r = rec[which][i]
+                if which == 'out':
+                    text, pv, data, tid, step = r[0], r[3], r[5], r[6], r[8]
+                else:
+                    text, pv, data, tid, step = r[0], r[2], r[3], r[4], r[6]
+                self.count('L2:fresh-process-compared')
+                if err is not None or r[7 if which == 'out' else 5] is not None:
+                    continue
+                if dhex != data.hex() or thex != tid.hex():
+                    stp = rec['steps'][step]
+                    h = hashlib.sha1((text + repr(pv) + which).encode()).hexdigest()[:10]
+                    self.ctx.fail(f'history-dependent:{stp["kind"]}:{h}',
+                                  'the descriptor depends on what the process described BEFORE the schema was '
+                                  'altered: a fresh process gives other bytes for the same query on the same schema',
+                                  {'query': text, 'protocol': list(pv), 'which': which + '_type_data',
+                                   'ddl_applied_in_this_process': stp['ddl'],
+                                   'after_history': data.hex(), 'fresh_process': dhex,
+                                   'type_id_after_history': tid.hex(), 'type_id_fresh': thex})
 
     @staticmethod
     def anno_split(data: bytes):
@@ -1532,6 +1837,22 @@ class Run:
             if ok and i == len(data):
                 return k
         return None
+
+
+def exp_has_dups(exp) -> bool:
+    k = exp[0]
+    if k == 'SH':
+        names = [(e[0], e[4]) for e in exp[2]]
+        if len({n for n, _ in names}) != len(names):
+            return True
+        return any(not isinstance(e[2], str) and exp_has_dups(e[2]) for e in exp[2])
+    if k in ('A', 'R', 'SET'):
+        return exp_has_dups(exp[1])
+    if k == 'T':
+        return any(exp_has_dups(t) for t in exp[1])
+    if k == 'NT':
+        return any(exp_has_dups(t) for _n, t in exp[1])
+    return False
 
 
 def ann_spec(entries) -> str:
@@ -1584,23 +1905,23 @@ def parse_rpn(s: str) -> Node:
 def run(ctx: core.Ctx):
     proved = ctx.proof_stage(PROPS, ['EdbVerif.Props.C14', 'Driver.C14'], required=REQUIRED)
     ctx.log('proof stage:', 'ok' if proved else ctx.proof['broken'])
+    # assumption behind `NoSep`: a name cannot contain NUL (the real tokenizer rejects U+0000).
+    # (before the level-2 stage: its fresh-process helper rebuilds the lexer binary on its own)
+    from lib import rustlex
+    rustlex.build()
+    lx = rustlex.lex_many(['select (`a\x00b` := 1)', 'select `a\x00b`'])
+    nul_ok = all(r.error is not None for r in lx)
+    if not nul_ok:
+        ctx.fail('assumption:nul-in-name', 'the tokenizer accepts U+0000 inside a quoted name: the id strings '
+                 'use NUL as part separator', {'lexed': [repr(r) for r in lx]}, no_input=True)
     l2 = None
     if not ctx.replay:
-        l2 = l2_compile(ctx, ctx.budget(40, 300))
+        l2 = l2_compile(ctx, ctx.budget(14, 300))
         ctx.log(f'level 2: {len(l2["out"])} compilations through the real compiler')
     R = Run(ctx)
     R.pending_mut = []
-    # assumption behind `NoSep`: a name cannot contain NUL (the real tokenizer rejects U+0000)
-    try:
-        from lib import rustlex
-        rustlex.build()
-        lx = rustlex.lex_many(['select (`a\x00b` := 1)', 'select `a\x00b`'])
-        if any(r.error is None for r in lx):
-            ctx.fail('assumption:nul-in-name', 'the tokenizer accepts U+0000 inside a quoted name: the id strings '
-                     'use NUL as part separator', {'lexed': [repr(r) for r in lx]}, no_input=True)
+    if nul_ok:
         R.count('assumption:tokenizer-rejects-NUL-in-names')
-    except core.Infra:
-        raise
 
     if ctx.replay:
         rp = json.load(open(ctx.replay))
@@ -1611,9 +1932,9 @@ def run(ctx: core.Ctx):
                 R.ask(line, lambda out, line=line: ctx.log('replay', line[:120], '=>', out[:200]))
         R.stream_d(0)
     else:
-        R.stream_a(ctx.budget(300, 3000))
+        R.stream_a(ctx.budget(180, 3000))
         ctx.log(f'stream A: {sum(v for k, v in R.hist.items() if k.startswith("A:describe"))} describe() cases')
-        R.stream_b(ctx.budget(1050, 100000))
+        R.stream_b(ctx.budget(800, 100000))
         n_ex = R.stream_exhaustive(ctx.budget(4, 1))
         ctx.log(f'stream B: random + {n_ex} exhaustive trees')
         R.stream_d(ctx.budget(1500, 30000))
@@ -1629,7 +1950,7 @@ def run(ctx: core.Ctx):
 
     if not ctx.replay:
         R.lines, R.handlers = [], []
-        R.stream_c(ctx.budget(2500, 40000))
+        R.stream_c(ctx.budget(2000, 40000))
         out = ctx.driver('C14', R.lines)
         if len(out) != len(R.lines):
             raise core.Infra(f'driver returned {len(out)} lines for {len(R.lines)}')
@@ -1651,7 +1972,13 @@ def run(ctx: core.Ctx):
                 'x follow_links x name_filter x inline_typenames; B: arbitrary wire-level trees (depth <= 4, shared '
                 'sub-descriptors) and all trees of depth <= 2 over a small alphabet (quick: the quarter selected '
                 'by the seed); C: byte-mutated streams; D: id function argument lists (all name lists of length '
-                '<= 2 over 13 names incl. ":" / ";" / empty, plus random). non-trivial = tree with >= 2 nodes; '
+                '<= 2 over 17 names incl. ":" / "\\" / ";" / empty, plus random); HISTORIES: level 2 - real DDL '
+                'through the bridge applies in-place ALTERs that keep ids (enum labels added / reordered, enum / '
+                'scalar / object type renamed, scalar re-based, pointer renamed / retyped / cardinality changed, link '
+                'property renamed, alias tuple element renamed) in the SAME process between batches of compiled '
+                'queries and parameters, descriptors compared with the CURRENT schema and byte for byte with a '
+                'FRESH process on the same pickled schema; level 1 - stub types changed in place and described '
+                'again. non-trivial = tree with >= 2 nodes; '
                 'distinct = distinct driver line',
         'samples': [R.samples] if R.samples else [l[:300] for l in
                                                   (list(R.distinct)[:2] + R.lines[:2])],
@@ -1677,6 +2004,9 @@ def run(ctx: core.Ctx):
         'UTF-8 validity of names is checked by the real decoder only (not modelled)',
     ]
     ctx.trusted_base += [
+        'the Lean model is a pure function of (schema, type / query): that the Python describe() has no memory '
+        '(history independence: process-wide caches, module-level state) is NOT a theorem; it is checked by the '
+        'history oracle of this run (same process across in-place ALTERs vs current schema vs fresh process)',
         'hand-written model EdbVerif/Model/Desc.lean of the sertypes encoder building blocks, decoder and id '
         'preimages; tied by the differential run above',
         'harness/props/c14.py: stub schema classes, the type -> description abstraction, generators, '
@@ -1686,20 +2016,133 @@ def run(ctx: core.Ctx):
 
 # ============================================ level 2: real compiled queries
 L2_SDL = '''
-  scalar type myint extending int64;
+  scalar type mid extending int64;
+  scalar type myint extending mid;
   scalar type Color extending enum<Red, Green>;
   abstract type Named { required name: str; }
-  type Person extending Named { multi friends: Person { since: str }; age: myint; color: Color; }
+  type Person extending Named { multi friends: Person { since: str; name: str }; age: myint; color: Color; }
   type Movie extending Named { multi actors: Person; director: Person; year: int32; }
+  type A extending Named { x: int64 }
+  type B extending Named { x: int64 }
+  alias PT := (a := 1, b := 'x');
 '''
 ONE, OPT, MANY, ALO = 0x41, 0x6f, 0x6d, 0x4d
-# schema pointers: type -> name -> (cardinality, expected type, is_link)
-L2_PTRS = {
-    'default::Person': {'name': (ONE, ('S', 'std::str'), False), 'age': (OPT, ('S', 'default::myint'), False),
-                        'color': (OPT, ('S', 'default::Color'), False), 'friends': (MANY, 'default::Person', True)},
-    'default::Movie': {'name': (ONE, ('S', 'std::str'), False), 'year': (OPT, ('S', 'std::int32'), False),
-                       'actors': (MANY, 'default::Person', True), 'director': (OPT, 'default::Person', True)},
-}
+
+
+class L2Spec:
+    """the vocabulary of the level-2 schema as the harness believes it to be NOW: the
+    in-place ALTERs of the history stream are applied to the real schema (DDL through
+    the bridge) and to this record; expectations are always derived from it"""
+
+    def __init__(self):
+        self.enum, self.labels = 'Color', ['Red', 'Green']
+        self.myint, self.myint_anc = 'myint', ['default::mid', 'std::int64']
+        self.person, self.movie = 'Person', 'Movie'
+        self.age, self.since, self.year_t = 'age', 'since', 'std::int32'
+        self.name_card, self.director_card = ONE, OPT
+        self.alias = ['a', 'b']
+
+    def tn(self, short):
+        return 'default::' + short
+
+    def ptrs(self, base):
+        """pointer name -> (cardinality, expected type | target type name, is_link)"""
+        if base == self.tn(self.person):
+            return {'name': (self.name_card, ('S', 'std::str'), False),
+                    self.age: (OPT, ('S', self.tn(self.myint)), False),
+                    'color': (OPT, ('S', self.tn(self.enum)), False),
+                    'friends': (MANY, self.tn(self.person), True)}
+        return {'name': (self.name_card, ('S', 'std::str'), False), 'year': (OPT, ('S', self.year_t), False),
+                'actors': (MANY, self.tn(self.person), True),
+                'director': (self.director_card, self.tn(self.person), True)}
+
+    def bases(self):
+        return [self.tn(self.person), self.tn(self.movie)]
+
+    def user_types(self):
+        return [self.tn(self.myint), self.tn(self.enum), 'default::mid']
+
+    def facts(self, sch):
+        """what l2_match needs about the CURRENT schema"""
+        return {'schema_ids': {n: sch.get(n).id.bytes for n in self.user_types()},
+                'enum_labels': {self.tn(self.enum): list(self.labels)},
+                'ancestors': {self.tn(self.myint): list(self.myint_anc), 'default::mid': ['std::int64']}}
+
+    # ---- in-place ALTERs that keep ids: (kind, ddl text, mutation of this record)
+    def history(self):
+        def add_label():
+            self.labels = self.labels + ['Blue']
+        def reorder():
+            self.labels = list(reversed(self.labels))
+        def ren_enum():
+            self.enum = 'Colour'
+        def ren_scalar():
+            self.myint = 'myint2'
+        def rebase():
+            self.myint_anc = ['std::int64']
+        def ren_obj():
+            self.person = 'Human'
+        def ren_ptr():
+            self.age = 'years'
+        def retype():
+            self.year_t = 'std::int64'
+        def card():
+            self.director_card, self.name_card = MANY, OPT
+        def ren_lp():
+            self.since = 'since2'
+        def ren_el():
+            self.alias = ['x', 'b']
+        return [
+            ('enum-add-label', lambda: f'alter scalar type {self.enum} extending enum<{", ".join(self.labels + ["Blue"])}>;', add_label),
+            ('enum-reorder-labels', lambda: f'alter scalar type {self.enum} extending enum<{", ".join(reversed(self.labels))}>;', reorder),
+            ('enum-rename', lambda: f'alter scalar type {self.enum} rename to Colour;', ren_enum),
+            ('scalar-rename', lambda: f'alter scalar type {self.myint} rename to myint2;', ren_scalar),
+            ('scalar-rebase', lambda: f'alter scalar type {self.myint} {{ drop extending mid; extending int64 }};', rebase),
+            ('objtype-rename', lambda: f'alter type {self.person} rename to Human;', ren_obj),
+            ('pointer-rename', lambda: f'alter type {self.person} alter property {self.age} rename to years;', ren_ptr),
+            ('pointer-retype', lambda: f'alter type {self.movie} alter property year set type int64 using (<int64>.year);', retype),
+            ('pointer-cardinality', lambda: f'alter type {self.movie} alter link director set multi; '
+                                            f'alter type Named alter property name set optional;', card),
+            ('linkprop-rename', lambda: f'alter type {self.person} alter link friends alter property {self.since} rename to since2;', ren_lp),
+            ('alias-tuple-element-rename', lambda: "alter alias PT using ((x := 1, b := 'x'));", ren_el),
+        ]
+
+    def probes(self):
+        """queries touching everything the history alters, with the CURRENT expectation"""
+        E, M, P, Mv = self.tn(self.enum), self.tn(self.myint), self.tn(self.person), self.tn(self.movie)
+        e0 = f'{self.enum}.{self.labels[0]}'
+        pe = self.ptrs(P)
+        pm = self.ptrs(Mv)
+        person_sh = ('SH', P, [('name',) + pe['name'][:2] + (False, False), (self.age,) + pe[self.age][:2] + (False, False),
+                               ('color',) + pe['color'][:2] + (False, False),
+                               ('friends', MANY, ('SET', ('SH', P, [('name',) + pe['name'][:2] + (False, False),
+                                                                    (self.since, OPT, ('S', 'std::str'), False, True)])),
+                                True, False)])
+        dsh = ('SH', P, [('name',) + pe['name'][:2] + (False, False)])
+        movie_sh = ('SH', Mv, [('name',) + pm['name'][:2] + (False, False), ('year',) + pm['year'][:2] + (False, False),
+                               ('director', self.director_card,
+                                ('SET', dsh) if self.director_card in (MANY, ALO) else dsh, True, False),
+                               ('actors', MANY, ('SET', ('SH', P, [(self.age,) + pe[self.age][:2] + (False, False)])),
+                                True, False)])
+        out = [
+            (f'select {e0}', ('S', E)),
+            (f'select <{self.myint}>1', ('S', M)),
+            (f'select (<{self.myint}>1, {e0}, [{e0}], (c := {e0}))',
+             ('T', [('S', M), ('S', E), ('A', ('S', E)), ('NT', [('c', ('S', E))])])),
+            (f'select {self.person} {{ name, {self.age}, color, friends: {{ name, @{self.since} }} }}', person_sh),
+            (f'select {self.movie} {{ name, year, director: {{ name }}, actors: {{ {self.age} }} }}', movie_sh),
+            ('select PT', ('NT', [(self.alias[0], ('S', 'std::int64')), (self.alias[1], ('S', 'std::str'))])),
+            (f'select Named {{ name, [is {self.movie}].year }}',
+             ('SH', 'default::Named', [('name',) + pm['name'][:2] + (False, False),
+                                       ('year',) + pm['year'][:2] + (False, False)])),
+            (f'select {{ e := {e0}, m := <{self.myint}>1 }}',
+             ('SH', 'std::FreeObject', [('e', ONE, ('S', E), False, False), ('m', ONE, ('S', M), False, False)])),
+        ]
+        params = [
+            (f'select (<{self.enum}>$c, <optional {self.myint}>$n, <array<{self.enum}>>$cs)',
+             [('c', ONE, ('S', E)), ('n', OPT, ('S', M)), ('cs', ONE, ('A', ('S', E)))]),
+        ]
+        return out, params
 
 
 def bq(name: str) -> str:
@@ -1713,14 +2156,16 @@ class L2Gen:
     ('SH', base type name, [(name, cardinality, t, is_link, is_linkprop)])"""
     CNAMES = ['a', 'b', 'c', 'a:b', 'b:c', 'x', 'y', 'x:y', 'y:z', 'z', 'first name', 'é']
 
-    def __init__(self, rng):
+    def __init__(self, rng, spec=None):
         self.rng = rng
+        self.spec = spec or L2Spec()
 
     def scalar(self):
+        sp = self.spec
         return self.rng.choice([
             ('1', ('S', 'std::int64'), ONE), ("'s'", ('S', 'std::str'), ONE), ('true', ('S', 'std::bool'), ONE),
-            ('1.5', ('S', 'std::float64'), ONE), ('<myint>1', ('S', 'default::myint'), ONE),
-            ('Color.Red', ('S', 'default::Color'), ONE), ('{1, 2}', ('S', 'std::int64'), ALO),
+            ('1.5', ('S', 'std::float64'), ONE), (f'<{sp.myint}>1', ('S', sp.tn(sp.myint)), ONE),
+            (f'{sp.enum}.{sp.labels[0]}', ('S', sp.tn(sp.enum)), ONE), ('{1, 2}', ('S', 'std::int64'), ALO),
             ('<int64>{}', ('S', 'std::int64'), OPT), ('<int16>1', ('S', 'std::int16'), ONE),
             ('range(1, 5)', ('R', ('S', 'std::int64')), ONE), ('[1, 2]', ('A', ('S', 'std::int64')), ONE),
             ("['a']", ('A', ('S', 'std::str')), ONE), ('<uuid>"00000000-0000-0000-0000-000000000000"',
@@ -1771,18 +2216,19 @@ class L2Gen:
             return ('{' + ', '.join(f'{bq(n)} := {e[0]}' for n, e in zip(ns, els)) + '}',
                     ('SH', 'std::FreeObject', [(n, e[2], ('SET', e[1]) if e[2] in (MANY, ALO) else e[1], False, False)
                                                for n, e in zip(ns, els)]), ONE)
-        return self.shape(rng.choice(list(L2_PTRS)), depth, colon)
+        return self.shape(rng.choice(self.spec.bases()), depth, colon)
 
     def shape(self, base, depth, colon, linkprops=False):
         rng = self.rng
         els, txt = [], []
-        ptrs = L2_PTRS[base]
+        sp = self.spec
+        ptrs = sp.ptrs(base)
         for nm in rng.sample(list(ptrs), rng.randint(1, len(ptrs))):
             card, t, link = ptrs[nm]
             if link:
                 if depth <= 0:
                     continue
-                sub = self.shape(t, depth - 1, False, linkprops=(base == 'default::Person' and nm == 'friends'))
+                sub = self.shape(t, depth - 1, False, linkprops=(base == sp.tn(sp.person) and nm == 'friends'))
                 txt.append(f'{nm}: {sub[0][len(t.split("::")[1]) + 1:]}')
                 st_ = sub[1]
                 els.append((nm, card, ('SET', st_) if card in (MANY, ALO) else st_, True, False))
@@ -1790,10 +2236,10 @@ class L2Gen:
                 txt.append(nm)
                 els.append((nm, card, t, False, False))
         if linkprops and rng.random() < 0.7:
-            txt.append('@since')
-            els.append(('since', OPT, ('S', 'std::str'), False, True))
+            txt.append('@' + sp.since)
+            els.append((sp.since, OPT, ('S', 'std::str'), False, True))
         for n in self.names(rng.randint(0, 2), colon):
-            if n in ptrs or n == 'since':
+            if n in ptrs or n == sp.since:
                 continue
             e = self.scalar() if colon or depth <= 0 else self.expr(depth - 1, False)
             if colon or e[1][0] == 'SH':
@@ -1809,10 +2255,11 @@ class L2Gen:
         return (base.split('::')[1] + ' { ' + ', '.join(txt) + ' }', ('SH', base, els), MANY)
 
 
-def l2_match(n: Node, exp, v2, schema_ids, enum_labels, path='$'):
+def l2_match(n: Node, exp, v2, facts, path='$'):
     """problems (strings) of a decoded description against the expected one"""
     k = exp[0]
     bad = []
+    schema_ids, enum_labels = facts['schema_ids'], facts['enum_labels']
     if k == 'S':
         want = schema_ids[exp[1]]
         if n.id != want:
@@ -1824,24 +2271,32 @@ def l2_match(n: Node, exp, v2, schema_ids, enum_labels, path='$'):
             bad.append(f'{path}: {n.kind} where a scalar is expected')
         if v2 and (n.meta is None or n.meta[0].decode() != exp[1]):
             bad.append(f'{path}: type name {n.meta!r} is not {exp[1]}')
+        if exp[1] in facts.get('ancestors', {}):
+            want_anc = facts['ancestors'][exp[1]]
+            if v2:
+                got_anc = [c.meta[0].decode() if c.meta else '?' for c in n.post]
+                if got_anc != want_anc:
+                    bad.append(f'{path}: ancestors {got_anc} of {exp[1]}, schema says {want_anc}')
+            elif n.kind == 'scalar' and (len(n.post) != 1 or n.post[0].id != schema_ids[want_anc[-1]]):
+                bad.append(f'{path}: base type of {exp[1]} is not {want_anc[-1]}')
     elif k in ('A', 'R', 'SET'):
         kind = {'A': 'array', 'R': 'range', 'SET': 'set'}[k]
         if n.kind != kind or len(n.pre) != 1:
             bad.append(f'{path}: {n.kind} where {kind} is expected')
         else:
-            bad += l2_match(n.pre[0], exp[1], v2, schema_ids, enum_labels, path + '/' + kind)
+            bad += l2_match(n.pre[0], exp[1], v2, facts, path + '/' + kind)
     elif k == 'T':
         if n.kind != 'tuple' or len(n.pre) != len(exp[1]):
             bad.append(f'{path}: {n.kind}/{len(n.pre)} where a {len(exp[1])}-tuple is expected')
         else:
             for i, (c, e) in enumerate(zip(n.pre, exp[1])):
-                bad += l2_match(c, e, v2, schema_ids, enum_labels, f'{path}.{i}')
+                bad += l2_match(c, e, v2, facts, f'{path}.{i}')
     elif k == 'NT':
         if n.kind != 'ntuple' or [x.decode() for x in n.payload] != [e[0] for e in exp[1]]:
             bad.append(f'{path}: {n.kind} {n.payload!r} where named tuple {[e[0] for e in exp[1]]} is expected')
         else:
             for c, (nm, e) in zip(n.pre, exp[1]):
-                bad += l2_match(c, e, v2, schema_ids, enum_labels, f'{path}.{nm}')
+                bad += l2_match(c, e, v2, facts, f'{path}.{nm}')
     elif k == 'SH':
         if n.kind != 'shape':
             return [f'{path}: {n.kind} where an object shape is expected']
@@ -1867,7 +2322,7 @@ def l2_match(n: Node, exp, v2, schema_ids, enum_labels, path='$'):
                     bad.append(f'{path}.{nm}: flags {e[0]} (link={link}, linkprop={lp})')
                 if isinstance(t, str):
                     continue
-                bad += l2_match(c, t, v2, schema_ids, enum_labels, f'{path}.{nm}')
+                bad += l2_match(c, t, v2, facts, f'{path}.{nm}')
     return bad
 
 
